@@ -27,10 +27,14 @@ VARIABLES sig,         \* method -> shape
           func,        \* method -> function id or Nil          (the MFunc fields)
           log,         \* method -> sequence of records          (mock.calls.M)
           init,        \* func at construction (struct literal); observation
-          last, hist   \* observation
+          last, hist,  \* observation
+          snaps,       \* retained MCalls() results (history variable, see MatryerMockContract!ReturnedRecordsStable)
+          stale        \* method -> records of it were handed out by MCalls() and then reset away.  Part of the VIEW:
+                       \* "call; reset" must not be identified with the initial state, or read -> reset -> call(s) ->
+                       \* re-inspect would never be explored
 
-vars == <<sig, opt, func, log, init, last, hist>>
-view == <<sig, opt, func, log>>
+vars == <<sig, opt, func, log, init, last, hist, snaps, stale>>
+view == <<sig, opt, func, log, stale>>
 
 BShape == [ar |-> 1, var |-> FALSE, nres |-> 1]
 
@@ -41,6 +45,8 @@ Init == /\ sig \in {[m \in Methods |-> IF m = "A" THEN s ELSE BShape] : s \in Sh
         /\ log = [m \in Methods |-> << >>]
         /\ last = [op |-> "init"]
         /\ hist = << >>
+        /\ snaps = << >>
+        /\ stale = [m \in Methods |-> FALSE]
 
 NoReply   == [kind |-> "ret", res |-> << >>, names |-> FALSE, inner |-> << >>]
 Ret(r)    == [kind |-> "ret", res |-> r, names |-> FALSE, inner |-> << >>]
@@ -48,10 +54,11 @@ FnIsNil(fn) == [m \in Methods |-> fn[m] = Nil]
 
 Ev(op, m, f, args, reply, fwd, lg, fn) ==
   [op |-> op, m |-> m, f |-> f, args |-> args, reply |-> reply, fwd |-> fwd, logs |-> lg, fnil |-> FnIsNil(fn),
-   by |-> ByLogs(sig)]
+   by |-> ByLogs(sig), snaps |-> snaps]     \* the abstract log has no aliasing: retained results never change
 
 Do(e) == /\ last' = e
          /\ hist' = Append(hist, e)
+         /\ snaps' = SnapsAfter(snaps, log, e)
 
 ---------------------------------------------------------------------------
 (* mock_matryer.templ:91-131, one LET per statement *)
@@ -84,32 +91,34 @@ Call(m, v, n) ==
       r    == CallImpl(m, args) IN
   /\ log' = r.logs
   /\ Do(Ev("call", m, "", args, r.reply, r.fwd, r.logs, func))
-  /\ UNCHANGED <<sig, opt, func, init>>
+  /\ UNCHANGED <<sig, opt, func, init, stale>>
 
 ResetM(m) ==                                                             \* :151-157
   /\ opt.resets
   /\ log' = [log EXCEPT ![m] = << >>]
   /\ Do(Ev("resetm", m, "", << >>, NoReply, << >>, log', func))
+  /\ stale' = [stale EXCEPT ![m] = @ \/ log[m] # << >>]
   /\ UNCHANGED <<sig, opt, func, init>>
 
 ResetAll ==                                                              \* :160-168
   /\ opt.resets
   /\ log' = [m \in Methods |-> << >>]
   /\ Do(Ev("resetall", "", "", << >>, NoReply, << >>, log', func))
+  /\ stale' = [m \in Methods |-> stale[m] \/ log[m] # << >>]
   /\ UNCHANGED <<sig, opt, func, init>>
 
 SetFunc(m, f) ==                                                         \* user code: mock.MFunc = f
   /\ func[m] # f
   /\ func' = [func EXCEPT ![m] = f]
   /\ Do(Ev("setfunc", m, f, << >>, NoReply, << >>, log, func'))
-  /\ UNCHANGED <<sig, opt, log, init>>
+  /\ UNCHANGED <<sig, opt, log, init, stale>>
 
-\* call alphabet: two tags on A (the second only once there is a record to be ordered against),
-\* variadic lengths 0, 1, 2; one tag on B
+\* call alphabet: two tags on A (the second only once there is a record to be ordered against or a handed-out record
+\* that a new call could overwrite), variadic lengths 0, 1, 2; on B one tag, a second one after its records were reset away
 CallsOf(m) ==
-  IF m = "B" THEN {<<1, 0>>}
-  ELSE IF sig[m].var THEN {<<1, 2>>, <<1, 0>>} \cup (IF log[m] # << >> THEN {<<2, 1>>} ELSE {})
-  ELSE {<<1, 0>>} \cup (IF log[m] # << >> /\ sig[m].ar > 0 THEN {<<2, 0>>} ELSE {})
+  IF m = "B" THEN {<<1, 0>>} \cup (IF stale[m] THEN {<<2, 0>>} ELSE {})
+  ELSE IF sig[m].var THEN {<<1, 2>>, <<1, 0>>} \cup (IF log[m] # << >> \/ stale[m] THEN {<<2, 1>>} ELSE {})
+  ELSE {<<1, 0>>} \cup (IF (log[m] # << >> \/ stale[m]) /\ sig[m].ar > 0 THEN {<<2, 0>>} ELSE {})
 
 Recs == Len(log["A"]) + Len(log["B"])
 
@@ -135,7 +144,7 @@ P_ResultsAreFuncResults     == [][IsCall => ResultsAreFuncResults(sig, opt, func
 P_NilFuncContract           == [][IsCall => NilFuncContract(sig, opt, func, log, last')]_vars
 P_ResetEmptiesOnlyItsTarget == [][Stepped /\ last'.op \in {"resetm", "resetall"} =>
                                     ResetEmptiesOnlyItsTarget(sig, opt, func, log, last')]_vars
-P_StepOK                    == [][Stepped => StepOK(sig, opt, func, log, ByLogs(sig), last') /\ func' = FuncsAfter(func, last')
+P_StepOK                    == [][Stepped => StepOK(sig, opt, func, log, ByLogs(sig), snaps, last') /\ func' = FuncsAfter(func, last')
                                              /\ log' = last'.logs]_vars
 
 TypeOK == /\ \A m \in Methods : func[m] \in FuncIds \cup {Nil}
